@@ -145,6 +145,24 @@ func thriftGroups(tier string) []group {
 			}
 		}})
 	}
+	// number-heavy messages (thousands of integers / doubles whose text is far longer than their binary form): the
+	// output of the converters outgrows every reservation made up front and keeps growing number by number; intact
+	// and cut in the middle, through every struct-rooted entry point that does not allocate by wire size
+	for _, op := range ops {
+		op := op
+		if !op.struct_ || (op.alloc && !op.wrapped) {
+			continue
+		}
+		gs = append(gs, group{"thrift-long-numbers/" + op.name, func(tier string, y func(core.Case) bool) {
+			for _, sd := range longNumberSeeds() {
+				for _, f := range []fault{{"intact", "intact", sd.ref}, {fmt.Sprintf("truncated at %d", len(sd.ref)/2), "truncated", sd.ref[:len(sd.ref)/2]}} {
+					if !y(thriftCase(op, sd, f)) {
+						return
+					}
+				}
+			}
+		}})
+	}
 	// the repository's canned thrift message through every struct-rooted entry point
 	for _, op := range ops {
 		op := op
